@@ -14,7 +14,7 @@ import random
 import numpy as np
 
 RULE = ("seeded random manifests with 1-8 batches of sizes from {0,1,2,3,7,100} (empty first/last/consecutive batches "
-        "forced), bounds total, total+1, total+many; samples = full valid range shuffled / boundaries / phantoms only; "
+        "forced), default / offset / permuted row labels, bounds total, total+1, total+many; two lookups per manifest; samples = full valid range shuffled / boundaries / phantoms only; "
         "non-trivial = manifest has an empty batch or needs a phantom batch; distinct = hash of (vendor, sizes, bound, sample)")
 REQUIRED = ["prep_checked:dominion", "prep_checked:hart", "prep_rejections_checked", "lookup_checked:dominion",
             "lookup_checked:hart", "lookups_with_empty_batches", "lookups_with_phantom_batch", "cvrs_checked:dominion",
